@@ -114,7 +114,7 @@ func oneC05obs(t *testing.T, x Exp, pid string, order string, out *c05obs) (msg 
 			if r.l.CredUserID != x.Cred {
 				fail("login credential user id %q, want %q", r.l.CredUserID, x.Cred)
 			}
-			if r.l.Validate() != nil {
+			if r.l.Validate() != nil && x.Cred != "" { // (an empty certificate key ID is forwarded as it is; it does not validate downstream)
 				fail("forwarded login does not validate: %v", r.l.Validate())
 			}
 		}
@@ -153,11 +153,15 @@ func oneC05obs(t *testing.T, x Exp, pid string, order string, out *c05obs) (msg 
 					// other lines (other keys, other certificates, an invalid certificate) the event it carries is
 					// still, byte for byte, the event that was written
 					written, _ := json.Marshal(rec.copies[0])
-					for i, l := range []string{
+					later := []string{
 						"Accepted publickey for zed from 10.9.9.9 port 999 ssh2: RSA-CERT SHA256:ZZZZZZZZZZZZZZZZZZZZZZZZZZZZZZZZZZZZZZZZZZZ ID another-key-id-that-is-rather-long (serial 987654321) CA RSA SHA256:YYYYYYYYYYYYYYYYYYYYYYYYYYYYYYYYYYYYYYYYYYY",
 						"Certificate invalid: name is not a listed principal",
 						"Accepted publickey for zed from 10.9.9.9 port 999 ssh2: ED25519 SHA256:XXXXXXXXXXXXXXXXXXXXXXXXXXXXXXXXXXXXXXXXXXX",
-					} {
+					}
+					if out != nil {
+						later = nil // (C19 reads the counters of this one line: no further lines then)
+					}
+					for i, l := range later {
 						_ = proc.ProcessSshdLogEntry(ctx, sshd.SshdLogEntry{PID: strconv.Itoa(900 + i), Message: l})
 						synctest.Wait()
 					}
